@@ -1,5 +1,5 @@
 """C16 - polynomial and linear-combination types form the free algebra they denote."""
-import e1_typestate, specs, e8_formulas, e16_polyshort
+import e1_typestate, specs, e8_formulas, e16_polyshort, e24_lex
 
 LEVEL = 'other'
 EXPLANATION = ('Typestate dataflow (clean/dirty, must-analysis over the MIR CFG incl. loops) for Lc (no zero coefficient stored) '
@@ -23,6 +23,8 @@ def run(ctx, rep):
     e1_typestate.run_type(facts, rep, specs.LC, 'Lc', 25)
     e1_typestate.run_type(facts, rep, specs.MDEG, 'MultiDeg', 10)
     e8_formulas.check_grlex(facts, rep)
+    rep.rule('E24', e24_lex.__doc__.strip().split('\n')[0])
+    e24_lex.run(facts, rep)
     rep.rule('E16', e16_polyshort.__doc__.strip().split('\n')[0])
     e16_polyshort.run(facts, rep)
     rep.callsites += sum(len(facts.bodies[k].calls()) for k in rep.functions if k in facts.bodies)
